@@ -2,7 +2,10 @@
 
 package shimagent
 
-import "reflect"
+import (
+	"errors"
+	"reflect"
+)
 
 // VerifWaiters reports how many goroutines are currently registered on the
 // condition variable of message code msg (0 when msg is out of range). It reads
@@ -19,4 +22,21 @@ func (s *Server) VerifWaiters(msg byte) int {
 	wait := nl.FieldByName("wait").Uint()
 	notify := nl.FieldByName("notify").Uint()
 	return int(uint32(wait) - uint32(notify))
+}
+
+// VerifErrKind names the shim agent's own error kind of err ("locked", "not-locked", "key-not-found") or "" for any
+// other error. The verification harness classifies errors with it, so that the wording of an error message is
+// free to change.
+func VerifErrKind(err error) string {
+	switch {
+	case err == nil:
+		return ""
+	case errors.Is(err, errAgentLocked):
+		return "locked"
+	case errors.Is(err, errAgentUnlocked):
+		return "not-locked"
+	case errors.Is(err, errAgentNotFoundKey):
+		return "key-not-found"
+	}
+	return ""
 }
